@@ -146,8 +146,7 @@ def finish(res: Result, tier: str, seed: int, t0: float, explanation: str, assum
             out.append(f"  {f.msg}")
             for p in f.path[:12]:
                 out.append(f"    via {p}")
-        if code == 0:
-            code = 1
+        code = 1      # a violation outranks an analysis error caused by the same change (both are printed)
 
     wall = time.time() - t0
     ev = {
